@@ -13,6 +13,7 @@ from .. import build, gen, monitors, oracle as O, probes
 from . import common as K
 
 ID = "C01"
+REACH_TARGETS = [('python.BasicBlock._compile', 'formak.python:BasicBlock._compile'), ('python.BasicBlock.execute', 'formak.python:BasicBlock.execute'), ('python.Model.model', 'formak.python:Model.model'), ('python.Model.__init__', 'formak.python:Model.__init__')]
 LEVEL = "exploration"
 RULE = ("random model definitions (vf.gen.program: 1-5 states, 0-3 controls, 0-3 calibrations, "
         "adversarial names, set/list/tuple containers, shuffled dict orders, some expressions as "
